@@ -566,6 +566,27 @@ def c05 : List String → String
        if res.isEmpty then "-" else
        String.intercalate "," (res.map fun (n, p) => hex n ++ ":" ++ hex p.oid ++ ":" ++ toString p.size)
      | none => "bad-op")
+  | ["recent", now, rd, cd, od, refs] =>
+    -- refs: `<h|r>:<tip>:<t>=<oid>+<oid>;<t>=…` separated by commas (`-` = none)
+    let parseCommit (t : String) : Option (Int × List Nat) :=
+      match t.splitOn "=" with
+      | [tm, os] => do
+        let tm ← tm.toInt?
+        let os ← (if os == "" then some [] else (os.splitOn "+").mapM String.toNat?)
+        pure (tm, os)
+      | _ => none
+    let parseRef (t : String) : Option Pr.RefT :=
+      match t.splitOn ":" with
+      | [h, tip, cs] => do
+        let tip ← tip.toInt?
+        let cs ← (if cs == "" then some [] else (cs.splitOn ";").mapM parseCommit)
+        pure ⟨h == "h", tip, cs⟩
+      | _ => none
+    (match now.toInt?, rd.toNat?, cd.toNat?, od.toNat?, (if refs == "-" then some [] else (refs.splitOn ",").mapM parseRef) with
+     | some now, some rd, some cd, some od, some rs =>
+       let out := (Pr.retainedRecent now rd cd od rs).eraseDups
+       if out.isEmpty then "-" else String.intercalate "," (sortStr (out.map toString))
+     | _, _, _, _, _ => "bad-op")
   | ["prune", fl, lo, re, rc, ve] =>
     (match natList lo, natList re, natList rc, natList ve with
      | some lo, some re, some rc, some ve =>
